@@ -9,7 +9,7 @@
    increases, for every tag and all pairs of times (across states, pauses and warps).
    C12_warp_tag_start / C12_warp_default_furthest: both halves of the warp clause for every coalesced segment.
    Left to the correspondence on the dyadic family (exact floats), with the oracle stating them directly:
-   pauses of length zero inside warp segments
+   the widening of the own-time bound when the answer lands on an event beat
    (C12_warp_elapse is the warp clause for the other segments, those starting on beat 0 included; C12_half_tick the
    bound in beats). *)
 From Coq Require Import List ZArith QArith Qabs Bool Sorting.Sorted.
@@ -189,12 +189,11 @@ Theorem C12_warp_tag_start : forall td b0 v0 rest, dom td -> td_bpms td = (b0, v
 Proof. exact warp_tag_start_td. Qed.
 Print Assumptions C12_warp_tag_start.
 
-(* ... and the default-tag half, again for every coalesced segment whatever sits on or inside it, when stops and delays
-   have positive lengths: at that same time the default tag answers the beat of a state reached at that time, and no state
+(* ... and the default-tag half, again for every coalesced segment whatever sits on or inside it, stops and delays of
+   length zero included: at that same time the default tag answers the beat of a state reached at that time, and no state
    reached at that time lies on a later beat - "the furthest beat reached at that time" (the segment's end when nothing
    pauses inside it, else the beat of the first pause). *)
 Theorem C12_warp_default_furthest : forall td b0 v0 rest, dom td -> td_bpms td = (b0, v0) :: rest -> b0 == 0 ->
-  (forall r, In r (td_stops td) \/ In r (td_delays td) -> 0 < snd r) ->
   exists segs : list (Q * Q),
     (forall x, in_raw (td_warps td) x <-> exists s e, In (s, e) segs /\ s <= x /\ x < e) /\
     forall s e d, In (s, e) segs ->
@@ -256,4 +255,11 @@ Example C12_own_time_example :
              let a := fst (beat_at_raw l d (1003 # 1000) tSTOP) in
              Qeq_bool a 2 && Qle_bool (Qabs (time_at l d a tSTOP - (1003 # 1000))) ((1 # 96) * (60 / 120))
   | _ => false end = true.
+Proof. vm_compute. reflexivity. Qed.
+
+(* ... and a warp 8=4 with a stop of length zero on beat 10 and another on its end beat 12: at the time the warp elapses
+   (4 s) the WARP tag answers 8 and the default the furthest beat reached, 12 - the zero-length pauses change nothing *)
+Definition td_wz : tdata := {| td_bpms := [(0, 120)]; td_stops := [(10, 0); (12, 0)]; td_delays := []; td_warps := [(8, 4)]; td_offset := 0 |}.
+Example C12_warp_zero_pause_example :
+  Qeq_bool (beat_at_of td_wz 4 tWARP) 8 && Qeq_bool (beat_at_of td_wz 4 tSTOP) 12 && Qeq_bool (beat_at_of td_wz (9 # 2) tSTOP) 13 = true.
 Proof. vm_compute. reflexivity. Qed.
